@@ -10,6 +10,7 @@ import (
 	"pgregory.net/rapid"
 
 	"verif/harness/api"
+	"verif/harness/gen"
 	"verif/harness/guard"
 	"verif/harness/model"
 	"verif/harness/ref"
@@ -21,6 +22,10 @@ import (
 
 type caseC16 struct {
 	Frame Hex `json:"frame"`
+	// Loose: the body comes from the unconstrained generator (empty filters,
+	// odd option bytes, ...): the decoder may reject it, but if a packet is
+	// returned the dispatch and first-byte clauses apply to it all the same.
+	Loose bool `json:"loose,omitempty"`
 }
 
 // mandated reports whether the first byte has the flag bits the
@@ -54,12 +59,13 @@ func checkKeptUndefined() (sig, msg string) {
 	return "", ""
 }
 
-func checkC16(frame []byte) (sig, msg string) {
-	sig, msg = checkC16via(frame, false)
+func checkC16(frame []byte, loose ...bool) (sig, msg string) {
+	l := len(loose) > 0 && loose[0]
+	sig, msg = checkC16via(frame, false, l)
 	if msg == "" {
 		// the same frame from a reader that stalls: a (0, nil) read before the
 		// first byte and between header and body
-		sig, msg = checkC16via(frame, true)
+		sig, msg = checkC16via(frame, true, l)
 	}
 	if msg == "" {
 		sig, msg = checkKeptUndefined()
@@ -67,7 +73,7 @@ func checkC16(frame []byte) (sig, msg string) {
 	return
 }
 
-func checkC16via(frame []byte, stalling bool) (sig, msg string) {
+func checkC16via(frame []byte, stalling, loose bool) (sig, msg string) {
 	b := frame[0]
 	typ := int(b >> 4)
 	q, err, pan := read(frame)
@@ -79,7 +85,7 @@ func checkC16via(frame []byte, stalling bool) (sig, msg string) {
 		return "panic", fmt.Sprintf("ReadPacket panicked on %s: %v", hx(frame), pan.Value)
 	}
 	if err != nil {
-		if typ != 0 && mandatedFirstByte(b) {
+		if typ != 0 && mandatedFirstByte(b) && !loose {
 			return "rejected", fmt.Sprintf("first byte %02x has the mandated flags and the body is valid for %s, but ReadPacket rejects %s: %v", b, typeName(uint8(typ)), hx(frame), err)
 		}
 		if typ == 0 {
@@ -136,7 +142,7 @@ func TestC16(t *testing.T) {
 		if err := json.Unmarshal(rf.Case, &c); err != nil {
 			t.Fatalf("replay %s: %v", rf.Source, err)
 		}
-		_, msg := checkC16(c.Frame)
+		_, msg := checkC16(c.Frame, c.Loose)
 		r.Case(vf.FP(c.Frame), true, "replay", func() interface{} { return c })
 		if msg != "" {
 			r.FailReplay(rf, "%s", msg)
@@ -146,17 +152,21 @@ func TestC16(t *testing.T) {
 		return
 	}
 
-	try := func(frame []byte) (string, string) {
-		sig, msg := checkC16(frame)
+	tryLoose := func(frame []byte, loose bool) (string, string) {
+		sig, msg := checkC16(frame, loose)
 		b := frame[0]
 		nt := b&15 != defaultNibble(b>>4)
 		class := typeName(b>>4) + "/default-flags"
 		if nt {
 			class = typeName(b>>4) + "/other-flags"
 		}
-		r.Case(vf.FP(frame), nt, class, func() interface{} { return caseC16{Frame: frame} })
+		if loose {
+			class += "/loose-body"
+		}
+		r.Case(vf.FP(frame), nt, class, func() interface{} { return caseC16{Frame: frame, Loose: loose} })
 		return sig, msg
 	}
+	try := func(frame []byte) (string, string) { return tryLoose(frame, false) }
 
 	// remaining length 0 for all 256 first bytes
 	if *vf.Shard == 0 {
@@ -187,6 +197,14 @@ func TestC16(t *testing.T) {
 			} else {
 				m = genSpecValid(t, typ)
 			}
+			loose := typ != 0 && rapid.IntRange(0, 3).Draw(t, "loosebody") == 0
+			if loose {
+				o := gen.Opts{AllowEmptyUserKey: true, NoHuge: true}
+				if typ == model.CONNECT {
+					o.WellFormed = true
+				}
+				m = gen.Packet(t, typ, o)
+			}
 			for nib := 0; nib < 16; nib++ {
 				b := typ<<4 | byte(nib)
 				var frame []byte
@@ -213,8 +231,8 @@ func TestC16(t *testing.T) {
 					frame = append([]byte(nil), f...)
 					frame[0] = b
 				}
-				if sig, msg := try(frame); msg != "" {
-					r.Fail("dispatch", caseC16{Frame: frame}, sig, "%s", msg)
+				if sig, msg := tryLoose(frame, loose); msg != "" {
+					r.Fail("dispatch", caseC16{Frame: frame, Loose: loose}, sig, "%s", msg)
 					t.Fatalf("%s", msg)
 				}
 			}
